@@ -6,7 +6,9 @@ EN = ("C03", "C01")
 
 def build(tier):
     qs = []
-    cfgs = [(1, 3, 3, 1), (2, 3, 3, 1), (3, 3, 3, 1), (3, 4, 4, 1)] if tier == "quick" else [(1, 3, 3, 1), (2, 3, 3, 1), (3, 3, 3, 1), (3, 4, 4, 1), (4, 3, 3, 1), (2, 4, 4, 2), (4, 4, 3, 2), (2, 6, 3, 1), (3, 6, 5, 1), (1, 5, 5, 2)]
+    import os
+    seed = int(os.environ.get("VERIF_SEED", "0") or 0)
+    cfgs = [(1, 3, 3, 1), (2, 3, 3, 1), (3, 3, 3, 1)] if tier == "quick" else [(1, 3, 3, 1), (2, 3, 3, 1), (3, 3, 3, 1), (3, 4, 4, 1), (4, 3, 3, 1), (2, 4, 4, 2), (4, 4, 3, 2), (1, 5, 5, 2)]
     for ci, cfg in enumerate(cfgs):
         k, r, n1, sd = cfg
         n = k + r
@@ -17,11 +19,23 @@ def build(tier):
                 combos = [(0, 0, 0), (0, 1, 1), (0, 2, 3), (1, 0, 3), (1, 0, 1)] if n <= 7 else [(pi % 2, pi % 3, (0, 1, 3)[pi % 3])]
             for api, var, rm in combos:
                 qs.append(ldpc_cycle("C03", cfg, pat, (1, 9)[pi % 2], api, 1, var, EN, rand_mode=rm))
+    # larger configurations: the received sets are chosen with the reference model -- EVERY set for which the
+    # Gaussian elimination must succeed (the rare, interesting class: 30-35 of 256-512), in index order through
+    # both APIs and in reverse order, plus a sample of the peeling-complete and the unrecoverable sets
+    big = [(3, 4, 4, 1), (4, 4, 3, 1), (4, 5, 4, 1)] if tier == "quick" else [(4, 4, 3, 1), (4, 5, 4, 1), (5, 4, 3, 7), (2, 6, 3, 1), (3, 6, 5, 1), (5, 5, 4, 3)]
+    for ci, cfg in enumerate(big):
+        cl = ldpc_classes(cfg)
+        for pi, pat in enumerate(cl["ml-ok"]):
+            for api, var, rm in ((0, 0, 0), (1, 0, 1), (0, 1, 3)):
+                qs.append(ldpc_cycle("C03", cfg, pat, (1, 9)[pi % 2], api, 1, var, EN, rand_mode=rm))
+        for name in ("it", "ml-fail"):
+            for pi, pat in enumerate(pick(cl[name], seed * 7 + ci, 24 if tier == "quick" else 120)):
+                qs.append(ldpc_cycle("C03", cfg, pat, (1, 9)[pi % 2], pi % 2, 1, pi % 3, EN, rand_mode=(0, 1, 3)[pi % 3]))
     meta = dict(
         units=["src/lib_stable/ldpc_staircase/*.c", "src/lib_common/linear_binary_codes_utils/ml_decoding/*.c", "it_decoding/of_it_decoding.c",
                "binary_matrix/of_matrix_{sparse,dense,convert}.c"],
         functions_encoded=["of_finish_decoding -> of_linear_binary_code_finish_decoding_with_ml, of_linear_binary_code_solve_dense_system", "of_decode_with_new_symbol", "of_set_available_symbols"],
-        bounds="(k,r,N1,seed) in %s: every one of the 2^n received sets (fewer than k and all n included), both submission APIs, orders {index, reverse, rotation}, rand() of the repair-injection shuffle = three concrete sequences (all-zero, 0,1,2.., 3,10,17..); all source bytes symbolic; oracle: rank over GF(2) of the unknown symbols' columns of the reference RFC 5170 matrix (lib/ref.py), equal to 'uniquely determined' because staircase columns are independent" % (cfgs,),
+        bounds="(k,r,N1,seed) in %s: every one of the 2^n received sets; for the larger configurations BIGCFG every received set that needs a successful Gaussian elimination (chosen with the reference model) plus samples of the other classes; for all of them (fewer than k and all n included), both submission APIs, orders {index, reverse, rotation}, rand() of the repair-injection shuffle = three concrete sequences (all-zero, 0,1,2.., 3,10,17..); all source bytes symbolic; oracle: rank over GF(2) of the unknown symbols' columns of the reference RFC 5170 matrix (lib/ref.py), equal to 'uniquely determined' because staircase columns are independent".replace("BIGCFG", str(big)) % (cfgs,),
         outside_bounds="codes beyond the grid; orders beyond the three per received set; rand() sequences beyond the three (a symbolic rand() makes the injection order symbolic and the pointer-rich simplification explodes: no verdict in 5 min even for r=3); the rank oracle is as independent as my RFC 5170 transcription (cross-checked against the library's matrix by C05)",
         stubs=["rand() returns harness-chosen values (harness/env.h)"], assumptions=STD_ASSUMPTIONS, exhaustive=False)
     return qs, meta
